@@ -351,6 +351,44 @@ def check_limits_and_pickling(prog, ctx, car):
     if not hooks:
         ctx.ok("C14.D6", "package::no-pickling-hooks", "sparseSpACE/*", "no class defines __getstate__/__setstate__/__reduce__/__deepcopy__: dill stores the whole __dict__")
     check_area_value_reset(prog, ctx, "C14.D7")
+    check_reentry_keeps_evolved_state(prog, ctx)
+    # the limits of THIS call reach the loop (rule shared with C13.D7)
+    from .C13 import check_forwarding
+    check_forwarding(prog, ctx, rule="C14.D5", only_limits=True)
+
+
+def check_reentry_keeps_evolved_state(prog, ctx):
+    """D8: state that evolves during refinement (attributes some strategy method updates in place / augments: lmax, ...) is
+    initialised by init_adaptive_combi only for a fresh start (under `refinement_container is None`), never when the run re-enters with
+    a given refinement container (restored from file, or handed over from an earlier run)."""
+    base = prog.cls("spatiallyAdaptiveBase.SpatiallyAdaptivBase")
+    iac = prog.lookup_method(base, "init_adaptive_combi")
+    ctx.touch(iac)
+    evolving = set()
+    for st_ in prog.all_subclasses(base):
+        for f in st_.methods.values():
+            if f.name in ("__init__", "init_adaptive_combi"):
+                continue
+            for s_ in R.self_stores(f):
+                if s_.kind in ("elem_aug", "elem"):          # per-dimension / per-entry state updated in place (lmax[d] += ...); scalar
+                    evolving.add(s_.attr)                    # step counters (`self.refinements += 1`) are per-call bookkeeping
+    rcp = next((p_ for p_ in iac.params if "container" in p_), None)
+    if rcp is None:
+        raise AnalysisError("anchor vanished: the refinement_container parameter of init_adaptive_combi")
+    tm = Terms(iac.node, max_depth=0)
+    fresh = ("cmp", "Is", ("n", rcp), ("c", "None"))
+    n = 0
+    for s_ in R.self_stores(iac):
+        if s_.attr not in evolving or s_.kind != "plain":
+            continue
+        n += 1
+        guards = [g for (g, gn) in R.dominating_guards(iac, R.cfg_node(iac, s_.stmt), tm) if gn.kind == "test"]
+        ctx.check(fresh in guards, "C14.D8", R.key_of(iac, "fresh-start-only:%s" % s_.attr), iac.loc(s_.stmt),
+                  "self.%s is initialised only for a fresh start" % s_.attr,
+                  "`%s` runs also when init_adaptive_combi re-enters with a given refinement container: self.%s, which the refinement "
+                  "raises / updates in place, falls back to its initial value while the restored refinement structures keep their depth"
+                  % (src(s_.stmt), s_.attr))
+    ctx.floor("C14.D8", n, 1, "initialisations of evolving state in init_adaptive_combi")
 
 
 def check_area_value_reset(prog, ctx, rule):
